@@ -370,7 +370,29 @@ def part_tri(p):
     return st
 
 
+def part_modes(mode, rates):
+    O.set_mode(mode)
+    st = Stats()
+    a = part_construct(([1, 3, 7, 100, 250], [('EUR', 'USD'),
+                                               ('JPY', 'EUR')]),
+                       ['i', 'D'], ['D', 'F', 'f'], [-6, -3, -1, 0, 2, 5])
+    b = part_tri(rates)
+    for part in (a, b):
+        viol, part.viol = part.viol, {}
+        st.merge(part)
+        for sig, (n, msg, cases) in viol.items():
+            for c in cases:
+                st.violation(sig + ':configured-mode', f"[{mode}] {msg}",
+                             dict(c['case'], mode=mode))
+            ent = st.viol.get(sig + ':configured-mode')
+            if ent is not None:
+                ent[0] += n - len(cases)
+    return st
+
+
 def replay(case):
+    if case.get('mode'):
+        O.set_mode(case['mode'])
     Money = money()
     for c in CUR:
         Money.register_currency(c)
@@ -402,6 +424,11 @@ def run(tier, seed):
     rates = tri_rates()
     total.merge(pmap(part_tri, [rates[i::16] for i in range(16)],
                      fresh=True))
+    # the accuracy bound is half a unit whatever default rounding mode is
+    # configured: a sub-grid under each of the other seven modes
+    total.merge(pmap(part_modes, [m for m in O.MODES
+                                  if m != 'ROUND_HALF_EVEN'],
+                     (rates[::5 if tier == 'quick' else 2],), fresh=True))
     total.sample({'construct': ['EUR', ['i', '250'], 'USD', ['D', '1/5']],
                   'meaning': '250 EUR = 0.2 USD'})
     total.sample({'triangulate': [['EUR', 'USD', '11/10'],
